@@ -29,3 +29,6 @@ pub use ov3::OnionV3Error as OnionV3AddressError;
 
 #[allow(missing_docs)]
 pub mod byte_ser;
+
+#[cfg(grin_wallet_verif)]
+pub mod verif;
